@@ -14,6 +14,7 @@ import (
 	"strconv"
 	"strings"
 	"sync"
+	"sync/atomic"
 	"testing"
 	"time"
 
@@ -494,7 +495,7 @@ func framesVsServer(c RawCase, rec recorder) *vf.Verdict {
 		xraw    string
 		done    bool
 	}
-	var seen seenT
+	seen := seenT{body: readResult{BadAt: -1}}
 	f, err := newSrvFixture(&c, func(f *srvFixture) http.Handler {
 		return http.HandlerFunc(func(w http.ResponseWriter, r *http.Request) {
 			defer f.guard("the handler")
@@ -534,7 +535,7 @@ func framesVsServer(c RawCase, rec recorder) *vf.Verdict {
 	wdone := make(chan struct{})
 	go func() {
 		defer close(wdone)
-		if writeCut(str, stream, c.Cuts, time.Duration(c.GapMs)*time.Millisecond) == nil {
+		if writeCut(str, stream, c.Cuts, boundGap(len(stream), c.Cuts, c.GapMs)) == nil {
 			str.Close()
 		}
 	}()
@@ -568,7 +569,7 @@ func framesVsServer(c RawCase, rec recorder) *vf.Verdict {
 		if end != nil {
 			return vf.Bad("C18/raw/wellformed-rejected", "%s: only unknown frame types were added to a well-formed request (RFC 9114 9: they MUST be ignored), but the raw client saw: %s", desc, describeEnd(end))
 		}
-		status, _ := m.field(len(m.Headers)-1-boolInt(len(m.Headers) > 1 && isTrailerSection(m.Headers[len(m.Headers)-1])), ":status")
+		status, _ := m.field(0, ":status")
 		if m.Err != nil || m.Truncated || status != "200" || string(m.Body) != "ok" {
 			return vf.Bad("C18/raw/wellformed-rejected", "%s: well-formed request with unknown frames: the response is %s", desc, describeMsg(m))
 		}
@@ -597,22 +598,6 @@ func framesVsServer(c RawCase, rec recorder) *vf.Verdict {
 		rec.NonTrivial("frames/client", describeItems(c.Items), fmt.Sprint(c.Cuts), c.GapMs)
 	}
 	return nil
-}
-
-func boolInt(b bool) int {
-	if b {
-		return 1
-	}
-	return 0
-}
-
-func isTrailerSection(fs [][2]string) bool {
-	for _, f := range fs {
-		if f[0] == ":status" {
-			return false
-		}
-	}
-	return true
 }
 
 func describeItems(its []Item) string {
@@ -728,6 +713,7 @@ func doRequest(ctx context.Context, tr *http3.Transport, method, path string, bo
 		}
 	}()
 	var mu sync.Mutex
+	res.body.BadAt = -1
 	ctx = httptrace.WithClientTrace(ctx, &httptrace.ClientTrace{Got1xxResponse: func(code int, _ textproto.MIMEHeader) error {
 		mu.Lock()
 		res.infos = append(res.infos, code)
@@ -781,7 +767,7 @@ func framesVsClient(c RawCase, rec recorder) *vf.Verdict {
 		mu.Lock()
 		first = sc
 		mu.Unlock()
-		if writeCut(str, stream, c.Cuts, time.Duration(c.GapMs)*time.Millisecond) == nil {
+		if writeCut(str, stream, c.Cuts, boundGap(len(stream), c.Cuts, c.GapMs)) == nil {
 			str.Close()
 		}
 	}
@@ -1210,7 +1196,7 @@ func abortVsServer(c RawCase, rec recorder) *vf.Verdict {
 		returned bool
 		ctx      context.Context
 	}
-	var seen seenT
+	seen := seenT{body: readResult{BadAt: -1}}
 	f, err := newSrvFixture(&c, func(f *srvFixture) http.Handler {
 		return http.HandlerFunc(func(w http.ResponseWriter, r *http.Request) {
 			defer f.guard(fmt.Sprintf("the handler (server Logger set: %v, trailers declared: %q)", c.SrvLogger, c.DeclT))
@@ -1315,11 +1301,11 @@ func abortVsServer(c RawCase, rec recorder) *vf.Verdict {
 	if c.Phase == "rsp" {
 		stopAt = c.RspBody * c.At / 1000
 	}
-	actedInReader := false
+	var actedInReader atomic.Bool
 	go func() {
 		readDone <- readMessage(str, func(total int) bool {
-			if stopAt >= 0 && total >= stopAt && !actedInReader {
-				actedInReader = true
+			if stopAt >= 0 && total >= stopAt && !actedInReader.Load() {
+				actedInReader.Store(true)
 				act()
 				return c.Action == "reset" || c.Action == "fin" // keep reading when only the (finished) request direction was touched
 			}
@@ -1359,7 +1345,7 @@ func abortVsServer(c RawCase, rec recorder) *vf.Verdict {
 		}
 	}
 	// let the in-tree side react
-	settle := time.Second
+	settle := time.Second + 40*rtt
 	if c.Action == "blackhole" {
 		settle = rawIdle + 1500*time.Millisecond
 	}
@@ -1368,16 +1354,15 @@ func abortVsServer(c RawCase, rec recorder) *vf.Verdict {
 	case m = <-readDone:
 	case <-time.After(settle):
 	}
-	if c.Phase == "rsp" && !actedInReader && m != nil && c.Action != "overlong" {
+	if c.Phase == "rsp" && !actedInReader.Load() && m != nil && c.Action != "overlong" {
 		// the response ended before the chosen point (error or short response): act now
 		act()
 	}
-	deadline := time.Now().Add(settle)
-	for time.Now().Before(deadline) {
+	for waited := time.Duration(0); waited < settle; waited += 20 * time.Millisecond {
 		f.mu.Lock()
-		fin := seen.returned || !seen.invoked
+		fin := seen.returned || (!seen.invoked && waited >= 500*time.Millisecond)
 		f.mu.Unlock()
-		if fin && time.Until(deadline) < settle-200*time.Millisecond {
+		if fin {
 			break
 		}
 		time.Sleep(20 * time.Millisecond)
@@ -1410,11 +1395,11 @@ func abortVsServer(c RawCase, rec recorder) *vf.Verdict {
 			}
 			return vf.Bad(sig, "%s: the request never completed, yet the handler's body reader returned a clean EOF: %v", desc, s.body)
 		}
-		if c.Action == "overlong" && s.body.err == nil {
+		if c.Action == "overlong" && c.ReqBody >= 1 && s.body.err == nil {
 			return vf.Bad("C18/content-length/long-request-body", "%s: Content-Length %d, %d bytes sent: the handler's body reader returned %v", desc, c.ReqBody/2, c.ReqBody, s.body)
 		}
 		// writes into a stream / connection the peer has given up must fail once they reach the stream
-		mustFail := c.RspBody >= 8192 && (c.Action == "overlong" && c.ReqBody >= 2 ||
+		mustFail := c.RspBody >= 8192 && (c.Action == "overlong" && c.ReqBody >= 1 ||
 			c.Phase == "req" && (c.Action == "stop" || c.Action == "both" || connLevel) ||
 			c.Phase == "rsp" && (c.Action == "stop" || c.Action == "both" || connLevel) && c.RspBody >= 128<<10 && c.At <= 500)
 		if mustFail && s.writeErr == nil {
